@@ -319,6 +319,7 @@ theorem P_evalStep (impl : FmtImpl) (cfg : Cfg) {rec : Rec} (hrec : (∀ i s, P 
       · exact P_seqG H _ _ (fun kv => P_runKeyword H impl cfg hrec ..)
     · exact P_crashG H _
   · exact P_crashG H _
+  · exact P_crashG H _
 
 /-- **Scope restoration** for the whole evaluator, every fuel. -/
 theorem P_eval (impl : FmtImpl) (cfg : Cfg) (fuel : Nat) :
